@@ -10,7 +10,8 @@ META = {
                    'detector: every read is gated on a blocking select() of the raw descriptor while reads go through the '
                    'buffering TLS stream (recorded as a known finding); (R20.4) the callback forwards each Bitmap with exactly '
                    'one Sender::send; (R20.5) a disconnect-provider ultimatum is mapped to an error in mcs::Client::read; '
-                   '(R20.6) sized stream reads use std read_exact so an orderly close surfaces as an error. Timing and '
+                   '(R20.6) sized stream reads use std read_exact so an orderly close surfaces as an error; (R20.7) every rectangle of every '
+                   'update of a PDU reaches the callback once and in order (rules R10.1/R10.3 shared with C10). Timing and '
                    'scheduling clauses are not decided.',
     'assumptions': ['std::sync::mpsc::Sender::send is FIFO', 'std::io::Read::read_exact returns UnexpectedEof on a closed stream',
                     'only the Linux/macOS cfg of wait_for_fd is analysed'],
@@ -150,3 +151,7 @@ def run(ctx):
                   'Stream::read_exact is not std Read::read_exact: a read returning 0 at end of stream is not turned into an error, '
                   'so the receive thread never sees the closure')
     ctx.floor('R20.6', 'Ok paths of Stream::read_exact', n_ok, 2)
+
+    # ---- R20.7 bitmap events received before the end are all forwarded, in order (shared with C10) ------------------
+    import c10
+    ctx.include(c10.run, ('R10.1', 'R10.3'), 'R20.7')
